@@ -108,3 +108,27 @@ Definition extra_aligned_cfg (c : band_cfg) : bool :=
   else true.
 
 Definition extra_aligned_check : bool := forallb extra_aligned_cfg band_configs.
+
+(* ---- deprecated band names (proofs: AliasProofs.v) ------------------------------------ *)
+(* what GetConfig returns for a deprecated name is, apart from the name it was asked for, the
+   configuration of the common name with the same repeater / dwell-time arguments *)
+Definition all_configs : list band_cfg := band_configs ++ band_alias_configs.
+
+Definition is_deprecated (name : string) : bool :=
+  match assoc_string name deprecated_names with Some _ => true | None => false end.
+
+Definition alias_partner (ac : band_cfg) : option band_cfg :=
+  find (fun c => String.eqb (c_name c) (common_name (c_name ac)) && cfg_body_eqb ac c) band_configs.
+
+Definition alias_cfg_check (ac : band_cfg) : bool :=
+  is_deprecated (c_name ac) && match alias_partner ac with Some _ => true | None => false end.
+
+(* every deprecated name x repeater x dwell time has been dumped *)
+Definition alias_cover_cell (name : string) (rep dw : bool) : bool :=
+  existsb (fun ac => String.eqb (c_name ac) name && Bool.eqb (c_rep ac) rep && Bool.eqb (c_dwell ac) dw)
+          band_alias_configs.
+Definition alias_cover_check : bool :=
+  forallb (fun p => forallb (fun rep => forallb (alias_cover_cell (fst p) rep) [false; true]) [false; true])
+          deprecated_names.
+
+Definition alias_check : bool := forallb alias_cfg_check band_alias_configs && alias_cover_check.
